@@ -2,6 +2,7 @@
 (* The oscillator's control protocol (operon_ai/topology/oscillator.py): a controller calling start / stop / pause / resume, and the worker threads the calls
    spawn, at the granularity of the statements that touch shared state (_state, _stop_event, _pause_event, _thread, _cycle_count).  Specification growth, no
    listed property.  One action per statement of the code: the calls are NOT atomic and take no lock, which is the point of the model.
+     reset : if RUNNING: stop() | counters = 0 (under the lock) | if it was RUNNING: start()
      start : if _state == RUNNING return | _state = RUNNING | stop.clear() | pause.set() | spawn, _thread = it
      stop  : stop.set() | pause.set() | join(_thread) | _state = STOPPED
      pause : pause.clear() | _state = PAUSED                 resume : if _state == PAUSED: pause.set() | _state = RUNNING
@@ -20,7 +21,7 @@ CONSTANTS MaxW, MaxCycles, Cap, NPhases, EnterCallsPause, NCmds       \* MaxCycl
 VARIABLES state, stopEv, pauseEv, thread, wpc, wph, cycles, cpc, cmd, done, left
 vars == <<state, stopEv, pauseEv, thread, wpc, wph, cycles, cpc, cmd, done, left>>
 W == 1..MaxW
-Cmds == {"start", "stop", "pause", "resume"}
+Cmds == {"start", "stop", "pause", "resume", "reset"}
 Live(w) == IF w = 0 THEN FALSE ELSE wpc[w] \notin {"idle", "dead"}
 LiveSet == {w \in W : Live(w)}
 OInit == /\ state = "stopped" /\ stopEv = FALSE /\ pauseEv = FALSE /\ thread = 0 /\ wpc = [w \in W |-> "idle"] /\ wph = [w \in W |-> 0] /\ cycles = 0
@@ -36,8 +37,11 @@ Begin(c) ==
        [] c = "pause" -> pauseEv' = FALSE /\ cpc' = "pause2" /\ cmd' = c /\ UNCHANGED <<state, stopEv, done>>
        [] c = "resume" -> IF state = "paused" THEN pauseEv' = TRUE /\ cpc' = "resume2" /\ cmd' = c /\ UNCHANGED <<state, stopEv, done>>
                           ELSE Finish(c) /\ UNCHANGED <<state, stopEv, pauseEv>>
-Cont ==
-  /\ cpc # "idle" /\ UNCHANGED <<cycles, left, wph>>
+       [] c = "reset" -> /\ (\E w \in W : wpc[w] = "idle")           \* reset = [if RUNNING: stop()] ; zero the counters under the lock ; [if it was RUNNING: start()]
+                         /\ cmd' = c /\ UNCHANGED <<state, pauseEv, done>>
+                         /\ IF state = "running" THEN stopEv' = TRUE /\ cpc' = "rstop2" ELSE cpc' = "rzero" /\ UNCHANGED stopEv
+Cont1 ==
+  /\ cpc \in {"start2", "start3", "start4", "stop2", "stop3", "stop4", "pause2", "resume2"} /\ UNCHANGED <<cycles, left, wph>>
   /\ CASE cpc = "start2" -> stopEv' = FALSE /\ cpc' = "start3" /\ UNCHANGED <<state, pauseEv, thread, wpc, cmd, done>>
        [] cpc = "start3" -> pauseEv' = TRUE /\ cpc' = "start4" /\ UNCHANGED <<state, stopEv, thread, wpc, cmd, done>>
        [] cpc = "start4" -> LET w == CHOOSE w \in W : wpc[w] = "idle" /\ \A v \in W : wpc[v] = "idle" => w <= v IN
@@ -47,6 +51,20 @@ Cont ==
        [] cpc = "stop4" -> state' = "stopped" /\ Finish("stop") /\ UNCHANGED <<stopEv, pauseEv, thread, wpc>>
        [] cpc = "pause2" -> state' = "paused" /\ Finish("pause") /\ UNCHANGED <<stopEv, pauseEv, thread, wpc>>
        [] cpc = "resume2" -> state' = "running" /\ Finish("resume") /\ UNCHANGED <<stopEv, pauseEv, thread, wpc>>
+ContReset ==
+  /\ cpc \in {"rstop2", "rstop3", "rstop4", "rzeroW", "rzero", "rstart1", "rstart2", "rstart3", "rstart4"} /\ UNCHANGED <<left, wph>>
+  /\ CASE cpc = "rstop2" -> pauseEv' = TRUE /\ cpc' = "rstop3" /\ UNCHANGED <<state, stopEv, thread, wpc, cycles, cmd, done>>
+       [] cpc = "rstop3" -> ~Live(thread) /\ cpc' = "rstop4" /\ UNCHANGED <<state, stopEv, pauseEv, thread, wpc, cycles, cmd, done>>
+       [] cpc = "rstop4" -> state' = "stopped" /\ cpc' = "rzeroW" /\ UNCHANGED <<stopEv, pauseEv, thread, wpc, cycles, cmd, done>>
+       [] cpc = "rzeroW" -> cycles' = 0 /\ cpc' = "rstart1" /\ UNCHANGED <<state, stopEv, pauseEv, thread, wpc, cmd, done>>
+       [] cpc = "rzero" -> cycles' = 0 /\ Finish("reset") /\ UNCHANGED <<state, stopEv, pauseEv, thread, wpc>>
+       [] cpc = "rstart1" -> IF state = "running" THEN Finish("reset") /\ UNCHANGED <<state, stopEv, pauseEv, thread, wpc, cycles>>
+                             ELSE state' = "running" /\ cpc' = "rstart2" /\ UNCHANGED <<stopEv, pauseEv, thread, wpc, cycles, cmd, done>>
+       [] cpc = "rstart2" -> stopEv' = FALSE /\ cpc' = "rstart3" /\ UNCHANGED <<state, pauseEv, thread, wpc, cycles, cmd, done>>
+       [] cpc = "rstart3" -> pauseEv' = TRUE /\ cpc' = "rstart4" /\ UNCHANGED <<state, stopEv, thread, wpc, cycles, cmd, done>>
+       [] cpc = "rstart4" -> LET w == CHOOSE w \in W : wpc[w] = "idle" /\ \A v \in W : wpc[v] = "idle" => w <= v IN
+                             wpc' = [wpc EXCEPT ![w] = "top"] /\ thread' = w /\ Finish("reset") /\ UNCHANGED <<state, stopEv, pauseEv, cycles>>
+Cont == Cont1 \/ ContReset
 (* ---------------- worker ---------------- *)
 Goto(w, l) == wpc' = [wpc EXCEPT ![w] = l] /\ UNCHANGED wph
 GotoPhase(w, l, k) == wpc' = [wpc EXCEPT ![w] = l] /\ wph' = [wph EXCEPT ![w] = k]
@@ -74,7 +92,7 @@ Spec == OInit /\ [][ONext]_vars /\ WF_vars(Workers) /\ WF_vars(Cont)
 (* ------------------------------ properties ------------------------------ *)
 TypeOK == /\ state \in {"stopped", "running", "paused", "transition"} /\ stopEv \in BOOLEAN /\ pauseEv \in BOOLEAN /\ thread \in 0..MaxW
           /\ cycles \in 0..Cap /\ (IF thread = 0 THEN TRUE ELSE wpc[thread] # "idle")
-JoinedIsDead == cpc = "stop4" => ~Live(thread)
+JoinedIsDead == cpc \in {"stop4", "rstop4"} => ~Live(thread)
 StopEventuallyKillsAll == <>[]((left = 0 /\ cpc = "idle" /\ done = "stop") => LiveSet = {})
 MaxCyclesRespected == MaxCycles > 0 /\ MaxW = 1 => cycles <= MaxCycles
 (* probes, expected to be VIOLATED *)
